@@ -256,7 +256,7 @@ example :
     eqR x (.arr [4] [.cell (.int 1), .cell (.int 1), .cell (.int 1), .cell (.int 1)]) = .ok false := by
   decide
 
-/-! ### the pinned ndarray branch DID raise (finding F6c, fixed by 6c2066c)
+/-! ### the pinned ndarray branch DID raise (finding F6c, fixed by 75a5baf)
 
 `eqPinned` has the ndarray branch of the pinned tree: `len(x) == len(y)` instead of a shape test, then `veq` with numpy
 broadcasting.  Each behaviour below was reproduced on the pinned `_eq.py`; the repaired `eqR` returns a boolean on the
